@@ -122,6 +122,11 @@ def assign_out_of_range(H, case):
         exc, _ = H.raises(H.setattr, m, name, v)
         H.check("rejected_with_controller_value_error", isinstance(exc, ControllerValueError))
         H.check("previous_value_remains", H.eq(dict(m.controller_values), before))
+        # the instance stays usable: a following in-range assignment to the same controller takes effect
+        ok_v = H.int("then", t.min, t.max)
+        exc2, _ = H.raises(H.setattr, m, name, ok_v)
+        H.check("later_valid_assignment_accepted", exc2 is None)
+        H.check("later_valid_assignment_reads_back", H.eq(H.getattr(m, name), ok_v))
     else:
         K.lenient()
         exc, _ = H.raises(H.setattr, m, name, v)
@@ -200,3 +205,58 @@ def assign_canary(H, case):
     v = H.int("v", 0, 1024)
     H.setattr(m, case[1], v)
     H.check("canary_reads_back_plus_one", H.getattr(m, case[1]) == v + 1)
+
+
+def _nested_fixture_cases(tier):
+    import glob
+    import os
+
+    root = os.path.join(os.environ.get("RV_REPO", "/repo"), "tests", "files")
+    names = ["metamodule.sunsynth", "sampler.sunsynth", "amplifier.sunsynth"]
+    return [(n, os.path.join(root, n)) for n in names if os.path.exists(os.path.join(root, n))]
+
+
+@contract(
+    "strict_after_loading_and_cloning", ["C09", "C18"], kind="bounded", cases=_nested_fixture_cases,
+    targets=["rv.readers.reader:read_sunvox_file", "rv.errors:override_raise_controller_value_errors", "rv.controller:Controller.set_initial"],
+    bound="after loading each listed fixture (incl. nested loads), cloning a MetaModule with an embedded module and cloning a project: boundary out-of-range values on a fresh Amplifier / Generator, natively",
+)
+def strict_after_loading_and_cloning(H, path):
+    """The default strict mode is still in force after (nested) loads and clones: out-of-range
+    assignments and constructor keywords are rejected, in-range ones accepted."""
+    import rv.errors
+    from rv.modules.amplifier import Amplifier
+    from rv.modules.generator import Generator
+    from rv.modules.metamodule import MetaModule
+    from rv.project import Project
+    from rv.readers.reader import read_sunvox_file
+
+    def probe(tag):
+        a = Amplifier()
+        for v in (1025, -1):
+            try:
+                a.volume = v
+                ok = False
+            except ControllerValueError:
+                ok = True
+            H.check("out_of_range_still_rejected", ok and a.volume == 256, witness={"after": tag, "value": v, "reads": a.volume})
+        try:
+            Generator(polyphony=0)
+            ok = False
+        except ControllerValueError:
+            ok = True
+        H.check("out_of_range_keyword_still_rejected", ok, witness={"after": tag})
+        a.volume = 1024
+        H.check("in_range_still_accepted", a.volume == 1024, witness={"after": tag})
+        H.check("flag_is_strict", rv.errors.RAISE_CONTROLLER_VALUE_ERRORS is True, witness={"after": tag})
+
+    read_sunvox_file(path)
+    probe("load " + path.rsplit("/", 1)[-1])
+    mm = MetaModule()
+    mm.project.new_module(Amplifier)
+    mm.clone()
+    probe("MetaModule.clone")
+    p = Project()
+    p.attach_module(mm)
+    p.clone()
+    probe("Project.clone with MetaModule")
